@@ -59,6 +59,17 @@ type CheckSpec struct {
 	Harnesses   []HarnessSpec `json:"harnesses"`
 	CallSites   []CallSiteObl `json:"call_site_obligations"`
 	ReachObls   []ReachObl    `json:"reach_obligations"`
+	FlagObls    []FlagObl     `json:"flag_obligations"`
+}
+
+// FlagObl: in every function of Pkg that calls Anchor, the option field OptionField receives
+// exactly the value of command-line flag Flag.
+type FlagObl struct {
+	Pkg         string `json:"pkg"`
+	Anchor      string `json:"in_functions_calling"`
+	OptionField string `json:"option_field"`
+	Flag        string `json:"flag"`
+	Msg         string `json:"msg"`
 }
 
 // ReachObl is a structural obligation on the module's static call graph: from Root (a
@@ -214,10 +225,20 @@ func main() {
 		overlay[filepath.Join(*repo, p, "zz_verif_rt.go")] = []byte(strings.Replace(string(tmpl), "package PKG", "package "+parts[len(parts)-1], 1))
 		patterns = append(patterns, "./"+p)
 	}
+	var oblPkgs []string
 	for _, o := range spec.CallSites {
-		if !pkgs[o.Pkg] {
-			pkgs[o.Pkg] = true
-			patterns = append(patterns, "./"+o.Pkg)
+		oblPkgs = append(oblPkgs, o.Pkg)
+	}
+	for _, o := range spec.ReachObls {
+		oblPkgs = append(oblPkgs, o.Pkg)
+	}
+	for _, o := range spec.FlagObls {
+		oblPkgs = append(oblPkgs, o.Pkg)
+	}
+	for _, op := range oblPkgs {
+		if !pkgs[op] {
+			pkgs[op] = true
+			patterns = append(patterns, "./"+op)
 		}
 	}
 	sort.Strings(patterns)
@@ -492,6 +513,27 @@ func main() {
 				violations++
 				outLines = append(outLines, fmt.Sprintf("VIOLATION property=%s replay=%s", id, rp))
 				outLines = append(outLines, fmt.Sprintf("  reach obligation fails: %s reaches %s (in %s): %s", o.Root, callee, from, o.Msg))
+			}
+		}
+	}
+
+	if *only == "" {
+		for _, o := range spec.FlagObls {
+			res := prog.FlagPassthrough("github.com/Vedant9500/WTF/"+o.Pkg, o.Anchor, o.OptionField, o.Flag)
+			if len(res) == 0 {
+				inconclusive = append(inconclusive, fmt.Sprintf("flag obligation: no function in %s calling %s sets %s any more", o.Pkg, o.Anchor, o.OptionField))
+			}
+			for fn, why := range res {
+				callSiteEv = append(callSiteEv, map[string]any{"function": fn, "obligation": o.Msg, "holds": why == ""})
+				if why != "" {
+					nReplays++
+					rp := filepath.Join(replayDir, fmt.Sprintf("flag_%d.json", nReplays))
+					jb, _ := json.MarshalIndent(map[string]any{"property": id, "kind": "flag-passthrough", "function": fn, "why": why, "obligation": o}, "", " ")
+					os.WriteFile(rp, jb, 0o644)
+					violations++
+					outLines = append(outLines, fmt.Sprintf("VIOLATION property=%s replay=%s", id, rp))
+					outLines = append(outLines, fmt.Sprintf("  flag obligation fails in %s: %s: %s", fn, why, o.Msg))
+				}
 			}
 		}
 	}
